@@ -80,7 +80,7 @@ m = {
               "kind_free_text": "runtime-monitoring harness: seeded hostile workloads, exact-rational reference models, icontract contracts/invariants, input-immutability guard, .pyx emulator with bounds-checked memoryviews, per-case bounded-progress watchdog"}],
  "checks": checks,
  "not_applicable": [],
- "notes": "Every check: exit 0 held / exit 1 VIOLATION line with replay file / exit 2 INCONCLUSIVE (must-see class unobserved, contract never evaluated, emulator cannot transliterate, watchdog). known_findings.json lists repaired defects (status fixed:<commit>, suppress nothing); no open finding at present. VERIF_SEED / VERIF_TIER honoured. /verif/seeded holds 237 confirmed property-breaking changes (224 by independent sub-agents in six rounds, 13 reverse repairs) all of which the quick tier detects; /verif/refactors holds 24 behaviour-preserving refactorings on which every check stays silent; /verif/mutation holds classical mutation sweeps.",
+ "notes": "Every check: exit 0 held / exit 1 VIOLATION line with replay file / exit 2 INCONCLUSIVE (must-see class unobserved, contract never evaluated, emulator cannot transliterate, watchdog). known_findings.json lists repaired defects (status fixed:<commit>, suppress nothing); no open finding at present. VERIF_SEED / VERIF_TIER honoured. /verif/seeded holds 239 confirmed property-breaking changes (226 by independent sub-agents in six rounds, 13 reverse repairs) all of which the quick tier detects; /verif/refactors holds 24 behaviour-preserving refactorings on which every check stays silent; /verif/mutation holds classical mutation sweeps.",
 }
 json.dump(m, open("/verif/MANIFEST.json", "w"), indent=1)
 print("wrote MANIFEST with", len(checks), "checks")
